@@ -3,6 +3,7 @@ import Driver.Expose
 import Driver.Ports
 import Driver.Outline
 import Driver.Fault
+import Driver.Savable
 
 /-- `pmodel <component>`: line-protocol driver over the executable model definitions. -/
 def main (args : List String) : IO UInt32 := do
@@ -12,4 +13,5 @@ def main (args : List String) : IO UInt32 := do
   | ["ports"] => DrvPorts.main; return 0
   | ["outline"] => DrvOutline.main; return 0
   | ["fault"] => DrvFault.main; return 0
-  | _ => IO.eprintln "usage: pmodel <pm|expose|ports|outline|fault>"; return 2
+  | ["savable"] => DrvSavable.main; return 0
+  | _ => IO.eprintln "usage: pmodel <expose|fault|outline|pm|ports|savable>"; return 2
